@@ -1,6 +1,8 @@
 package vtest
 
 import (
+	"fmt"
+	"github.com/refraction-networking/conjure/pkg/zzverif/vchan"
 	"testing"
 
 	"github.com/refraction-networking/conjure/pkg/zzverif/vsched"
@@ -106,5 +108,67 @@ func TestPruneEquivalence(t *testing.T) {
 		if a.Outcomes != b.Outcomes {
 			t.Fatalf("pruning lost outcomes")
 		}
+	}
+}
+
+func TestChanRendezvousAndSelect(t *testing.T) {
+	mk := func() *vsched.Scenario {
+		ch := make(chan int)
+		buf := make(chan int, 1)
+		quit := make(chan struct{})
+		var wg vsync.WaitGroup
+		var got []int
+		dropped := 0
+		return &vsched.Scenario{
+			Body: func() {
+				wg.Add(2)
+				vsched.Go(func() { // consumer
+					defer wg.Done()
+					for {
+						c0, c1, c2 := vchan.R(quit), vchan.R(ch), vchan.R(buf)
+						switch vchan.Select(false, c0, c1, c2) {
+						case 0:
+							return
+						case 1:
+							got = append(got, c1.V)
+						case 2:
+							got = append(got, c2.V)
+						}
+					}
+				})
+				vsched.Go(func() { // producer
+					defer wg.Done()
+					vchan.Send(ch, 1)
+					c := vchan.S(buf, 2)
+					if vchan.Select(true, c) == -1 {
+						dropped++
+					}
+					c = vchan.S(buf, 3)
+					if vchan.Select(true, c) == -1 {
+						dropped++
+					}
+					vchan.Close(quit)
+				})
+				wg.Wait()
+			},
+			Check: func(x *vsched.Exec) *vsched.Violation {
+				if x.Verdict != vsched.VOK {
+					return &vsched.Violation{Key: x.Verdict, What: x.Detail}
+				}
+				if len(got)+dropped > 3 || len(got) < 1 || got[0] != 1 {
+					return &vsched.Violation{Key: "bad", What: fmt.Sprint(got, dropped)}
+				}
+				return nil
+			},
+			Outcome: func(x *vsched.Exec) string { return fmt.Sprint(got, dropped) },
+		}
+	}
+	r := vsched.Explore(vsched.Config{Name: "chan", PreemptBound: -1, EnvBound: -1}, mk)
+	t.Logf("exec=%d outcomes=%d %v viol=%d", r.Executions, r.Outcomes, r.OutcomeSamples, len(r.Violations))
+	if len(r.Violations) > 0 {
+		t.Fatalf("%+v", r.Violations[0])
+	}
+	if r.Outcomes < 3 {
+		t.Fatalf("expected several outcomes (drops depend on schedule)")
 	}
 }
